@@ -2,6 +2,7 @@ package main
 
 import (
 	"bytes"
+	"crypto/elliptic"
 	"fmt"
 	"math/big"
 	"strings"
@@ -587,5 +588,55 @@ func runC04(c *Ctx) error {
 	return nil
 }
 
-// sha2pcC04 is replaced by the sha2pc transcript scan when available.
-var sha2pcC04 = func(c *Ctx) {}
+// sha2pcC04 scans the Round3 payload of the SHA256(XOR) protocol (the garbler's
+// only label-bearing message) at every byte offset.
+func sha2pcC04(c *Ctx) {
+	n := c.N(2, 12)
+	curves := []elliptic.Curve{elliptic.P256(), elliptic.P224(), elliptic.P384(), elliptic.P521()}
+	for i := 0; i < n; i++ {
+		r := c.rng.Fork()
+		var a, b [32]byte
+		copy(a[:], r.Bytes(32))
+		copy(b[:], r.Bytes(32))
+		cv := curves[i%len(curves)]
+		round3, R, hints, err := sha2pcTranscript(cv, a, b, r.U64())
+		if err != nil {
+			c.Fail("c04:sha2pc:protocol-error", "sha2pc protocol run failed: "+err.Error(), nil)
+			continue
+		}
+		self, pairs := scanR(round3, R)
+		c.Hist("mode:sha2pc-round3:" + cv.Params().Name)
+		c.Eval(fmt.Sprintf("sha2pc|%s|%x|%x", cv.Params().Name, a, b), true)
+		c.Note("sha2pc %s: Round3 payload of %d bytes scanned at every offset: %d windows equal R, %d pairs R apart (%d output hints)",
+			cv.Params().Name, len(round3), len(self), len(pairs), len(hints))
+		both := 0
+		for _, h := range hints {
+			x := h[0]
+			x.Xor(h[1])
+			if x.Equal(R) {
+				both++
+			}
+		}
+		if both > 0 || len(pairs) > 0 || len(self) > 0 {
+			if len(pairs) > 8 {
+				pairs = pairs[:8]
+			}
+			key := "c04:sha2pc:transcript-leaks-R"
+			if both > 0 && both == len(pairs0(len(hints), len(self))) {
+				key = "c04:sha2pc:output-hints-both-labels"
+			}
+			c.Fail(key, fmt.Sprintf("sha2pc Round3 payload carries both labels of %d output wires (OutputHints): their xor is R", both),
+				c04Replay{Seed: c.Seed, Mode: "sha2pc:" + cv.Params().Name, Case: i, R: R.String(), Offsets: pairs, Self: self,
+					Inputs: fmt.Sprintf("a=%x b=%x", a, b)})
+		}
+	}
+}
+
+// pairs0 exists to keep the key decision explicit: the OutputHints finding is
+// keyed separately only when every R-apart pair is a hint pair and R itself is absent.
+func pairs0(nhints, nself int) []struct{} {
+	if nself > 0 {
+		return nil
+	}
+	return make([]struct{}, nhints)
+}
